@@ -336,9 +336,10 @@ def runH (c : CaseSt) (t : List String) : Option (String × CaseSt) :=
       | none => "none"
       | some l => sorted (l.map (fun x => s!"{x.1}|{locStr x.2}")), st)
   | ["h_outgoing", p, n] =>
-    some (match st.hOutgoingCalls (pathOf p) n with
+    let (r, st) := st.hOutgoingCalls (pathOf p) n
+    upd (match r with
       | none => "none"
-      | some l => listed (l.map (fun x => s!"{x.1.name}|{locStr x.1.range}|{locStr x.1.selection}|{hexOf x.1.detail}|{locStr x.2}")), c)
+      | some l => listed (l.map (fun x => s!"{x.1.name}|{locStr x.1.range}|{locStr x.1.selection}|{hexOf x.1.detail}|{locStr x.2}")), st)
   | ["h_hints", p, l0, l1] =>
     let (r, st) := st.hInlayHints (pathOf p) (l0.toNat! + 1) (l1.toNat! + 1)
     upd (match r with
